@@ -169,6 +169,35 @@ func trunc19(s string) string {
 	return s
 }
 
+// compactTrace: the complete callback sequence, one character per event, for corr/C19.v: lifecycle callbacks
+// E e S s O o C c K R; a push pair (bp ap) is 'u', a pop pair (bq aq) 'd', a pop callback without its
+// after-callback 'x'; an unpaired after-callback is '?', which the Coq side refuses.
+func compactTrace(tr []string) string {
+	m := map[string]byte{"BE": 'E', "AE": 'e', "BS": 'S', "AS": 's', "BO": 'O', "AO": 'o', "BC": 'C', "AC": 'c', "OK": 'K', "ER": 'R'}
+	var sb strings.Builder
+	for i := 0; i < len(tr); i++ {
+		nxt := ""
+		if i+1 < len(tr) {
+			nxt = tr[i+1]
+		}
+		switch e := tr[i]; {
+		case e == "bp" && nxt == "ap":
+			sb.WriteByte('u')
+			i++
+		case e == "bq" && nxt == "aq":
+			sb.WriteByte('d')
+			i++
+		case e == "bq":
+			sb.WriteByte('x')
+		case m[e] != 0:
+			sb.WriteByte(m[e])
+		default:
+			sb.WriteByte('?')
+		}
+	}
+	return sb.String()
+}
+
 func lifecycleOnly(tr []string) string {
 	var sb strings.Builder
 	for _, e := range tr {
@@ -270,7 +299,8 @@ func emit19(p *interpgen.Program) {
 		return
 	}
 	c.Weigh(rec.TraceBytes / 64)
-	c.Case(fmt.Sprintf("mkCase19 (%s 0) %s", interpgen.CoqCase(p, rec), common.CoqStr(lc)), p, key(p), rec.Steps > 0)
+	_ = lc
+	c.Case(fmt.Sprintf("mkCase19 (%s 0) %s", interpgen.CoqCase(p, rec), common.CoqStr(compactTrace(rec.Trace))), p, key(p), rec.Steps > 0)
 }
 
 func runC19() {
@@ -322,5 +352,5 @@ func runC19() {
 	over := append(bytes.Repeat([]byte{0x51}, 3), bytes.Repeat([]byte{0x6f}, 332)...)
 	over = append(over, 0x51, 0x51)
 	emit19((&interpgen.Program{Unlock: []byte{}, Lock: over, Flags: 0, Kind: "lifecycle-stack-limit"}).Fix())
-	c.Stats.Rule = "the interpreter-equivalence programs (opcode x operand matrix sample, grammar-generated programs, P2SH pairs, script-boundary and flow-control programs, both eras, sampled flags), each run six ways: no debugger, a recording debugger, the library's own debug.NewDebugger with a logging handler on every hook (two on some), two debuggers that overwrite every field and every stack byte of every State they are handed (XOR 0xff, and +1 which is not self-inverse) and one that changes the push data of the parsed opcodes in State.Scripts; verdict AND error text, callback sequence and all snapshots must coincide; the callback sequence is checked against the lifecycle grammar in Go and, projected to lifecycle events, compared with the model's trace in Coq. distinct = distinct program; one program per shape of the lifecycle grammar and one reaching the combined stack limit exactly and exceeding it by one are added. non-trivial = at least one step completed"
+	c.Stats.Rule = "the interpreter-equivalence programs (opcode x operand matrix sample, grammar-generated programs, P2SH pairs, script-boundary and flow-control programs, both eras, sampled flags), each run six ways: no debugger, a recording debugger, the library's own debug.NewDebugger with a logging handler on every hook (two on some), two debuggers that overwrite every field and every stack byte of every State they are handed (XOR 0xff, and +1 which is not self-inverse) and one that changes the push data of the parsed opcodes in State.Scripts; verdict AND error text, callback sequence and all snapshots must coincide; the complete callback sequence (stack callbacks included) is checked against the lifecycle automaton in Go and again inside Coq (model/DebugStack.v), and its lifecycle part is compared with the model's trace in Coq. distinct = distinct program; one program per shape of the lifecycle grammar and one reaching the combined stack limit exactly and exceeding it by one are added. non-trivial = at least one step completed"
 }
